@@ -18,7 +18,7 @@ RULE = ('Generated hand-overs: app pa with k in 0..3 evolutions (each adds a col
         'columns of the marked ones already exist in the evolution-era model), x start state '
         '{fresh database; database with the first j<=k evolutions applied; database already '
         'handed over with q<m migrations}, x neighbours {none; an evolution-only app with a '
-        'pending evolution; a migrations-only app with a pending migration; both}, x entry '
+        'pending evolution; a migrations-only app with a pending migration; both} (with the migrations-only neighbour the hand-over evolution may also declare AFTER_MIGRATIONS on its pending migration, which must then run first), x entry '
         '{Evolver API, evolve --execute, migrate}. After the run: django_migrations holds each '
         'of the app\'s m migrations exactly once; the marked migrations were not executed and '
         'the others were, once each, in chain order, after every pending evolution of the app; '
@@ -62,7 +62,11 @@ def cases(draw, stratum):
             'default_arg': p == 1 and draw(st.booleans()),
             'evo_neighbour': draw(st.booleans()), 'mig_neighbour': draw(st.booleans()),
             'entry': draw(st.sampled_from(['api', 'evolve_cmd', 'migrate_cmd'])),
-            'split_move': draw(st.booleans())}
+            'split_move': draw(st.booleans()),
+            # the evolution that holds the hand-over also declares AFTER_MIGRATIONS on the
+            # neighbour's pending migration (only meaningful with mig_neighbour); drawn last
+            # so that all earlier draws of a seed are unchanged
+            'declared_after': draw(st.booleans())}
 
 
 def jobs(tier, scale=1.0):
@@ -126,6 +130,10 @@ def build(case, n_evos, moved, n_migs, extra_field=False, neighbours_new=True):
             # the hand-over shares an evolution file with the last change
             evos[-1] = {'label': evos[-1]['label'], 'mutations': evos[-1]['mutations'] + [mv]}
     evolutions = {'pa': evos}
+    deps = {}
+    if moved and case.get('declared_after') and case.get('mig_neighbour') and neighbours_new:
+        deps['pa'] = {'per_evolution': {evos[-1]['label']: {
+            'AFTER_MIGRATIONS': [['pm', mig_name(2)]]}}}
     migrations = {}
     if n_migs:
         migs = []
@@ -167,8 +175,8 @@ def build(case, n_evos, moved, n_migs, extra_field=False, neighbours_new=True):
                          'operations': ops})
         migrations['pm'] = migs
     spec = mutgen.ensure_uids(spec)
-    return {'apps': apps, 'spec': spec, 'evolutions': evolutions, 'deps': {},
-            'migrations': migrations}
+    return {'apps': apps, 'spec': spec, 'evolutions': evolutions, 'deps': deps,
+            'migrations': migrations, 'move_label': evos[-1]['label'] if moved else None}
 
 
 def executed(trace, known_before):
@@ -275,6 +283,24 @@ def check(case):
             any(t[0] == 'signal' and t[1] == 'applying_migration' for t in s['trace'])
         ex = executed(s['trace'], {'pa': {'e%d' % (i + 1) for i in range(applied_evos)},
                                    'pb': {'e1'} if start[0] != 'fresh' else set()})
+        # declared requirement of the hand-over evolution (C09 in the C10 setting): when both
+        # units are announced in this run, the neighbour's migration comes first
+        if v1['deps'].get('pa'):
+            out['labels'].append('handover_declares_after_migration')
+            i_mig = i_evo = None
+            for i_t, t in enumerate(s['trace']):
+                if t[0] != 'signal':
+                    continue
+                if t[1] == 'applying_migration' and \
+                        list(t[2].get('migration') or []) == ['pm', mig_name(2)] and i_mig is None:
+                    i_mig = i_t
+                if t[1] == 'applying_evolution' and t[2].get('app') == 'pa' and \
+                        v1['move_label'] in (t[2].get('evolutions') or []) and i_evo is None:
+                    i_evo = i_t
+            if i_mig is not None and i_evo is not None:
+                out['labels'].append('handover_requirement_in_force')
+                if i_evo < i_mig:
+                    atoms.append(['declared_after_migration_broken', v1['move_label']])
         d = run['dumps']['default']
         if not ran:
             # nothing was required: only possible when the app is already handed over
